@@ -31,6 +31,7 @@ FT ==
  @@ "Person.id"        :> [parent |-> "Person", name |-> "id",          res |-> "-",      shared |-> TRUE,  args |-> << >>]
  @@ "Person.fullName"  :> [parent |-> "Person", name |-> "fullName",    res |-> "-",      shared |-> TRUE,  args |-> << >>]
  @@ "Person.items"     :> [parent |-> "Person", name |-> "items",       res |-> "Item",   shared |-> FALSE, args |-> << A("ids", "[ID!]!", TRUE), A("since", "Date", FALSE) >>]
+ @@ "Person.avatar"    :> [parent |-> "Person", name |-> "avatar",      res |-> "-",      shared |-> FALSE, args |-> << A("size", "Int!", TRUE), A("format", "String", FALSE) >>]
  @@ "Node.id"          :> [parent |-> "Node",   name |-> "id",          res |-> "-",      shared |-> TRUE,  args |-> << >>] )
 FKeys == DOMAIN FT
 SharedKeys == {f \in FKeys : FT[f].shared}
